@@ -130,10 +130,16 @@ def flow_checks(chk, kind, noise, tier, rs):
             try:
                 with simrun.quiet():
                     re = sim.re_estimate_sequence(ts, r)
+                ss = r.simulation_setting
+                note = ""
+                if (ss.eps_proj_physical, ss.eps_truncate_imaginary_part) != (simrun.EPS_PROJ, simrun.EPS_TRUNC):
+                    # diagnosis only: the property speaks about the re-estimated values
+                    note = " (the setting stored with the result has eps_proj_physical=%r, eps_truncate_imaginary_part=%r; configured %r, %r)" % (
+                        ss.eps_proj_physical, ss.eps_truncate_imaginary_part, simrun.EPS_PROJ, simrun.EPS_TRUNC)
                 got = [simrun.flat(list(x.estimated_var_sequence)) for x in re]
                 want = base[(r.result_index["sample_index"], r.result_index["case_index"])]["est"]
                 if len(got) != len(want) or any(not np.allclose(a, b, rtol=0, atol=1e-12) for a, b in zip(got, want)):
-                    bad("re_estimate", "re-estimation from stored data differs for sample %d case %d" % (r.result_index["sample_index"], r.result_index["case_index"]))
+                    bad("re_estimate", "re-estimation from stored data differs for sample %d case %d%s" % (r.result_index["sample_index"], r.result_index["case_index"], note))
             except Exception as e:
                 bad("re_estimate:exception", "%r" % e)
         # real joblib runs
